@@ -1640,11 +1640,13 @@ func c14Gen(t *rapid.T, st *vlib.Stats) c14Case {
 	}
 	// a signature with an odd byte must not be confusable - however the log prints that byte - with
 	// another name of the image; where it is, the odd byte gives way to a digit
+	for pass := 0; pass < 8; pass++ { // (a signature that has just become plain may clash with an odd one passed earlier)
+	changed := false
 	for i := range sigs {
 		if c14SigSkeleton(sigs[i]) == sigs[i] {
 			continue
 		}
-		clash := nbulk > 0
+		clash := nbulk > 0 || pass == 7
 		for _, fixed := range []string{"RSDT", "XSDT", "FACP", "DSDT", "RSD ", "PTR "} {
 			clash = clash || c14Confusable(fixed, sigs[i])
 		}
@@ -1663,9 +1665,13 @@ func c14Gen(t *rapid.T, st *vlib.Stats) c14Case {
 				dup = dup || (j != i && sigs[j] == string(b))
 			}
 			if !dup {
-				sigs[i], clash = string(b), false
+				sigs[i], clash, changed = string(b), false, true
 			}
 		}
+	}
+	if !changed {
+		break
+	}
 	}
 	drawn := ntab
 	ntab += nbulk
